@@ -115,6 +115,10 @@ type c12SignCase struct {
 	RawUnprot int         `json:"raw_unprot,omitempty"` // 1: RawUnprotected mirrors the map; 2: RawUnprotected only (map left empty)
 	CtyOdd    int         `json:"cty_odd,omitempty"`    // 1 []byte, 2 negative int, 3 float64, 4 bool
 	EmptyLoc  bool        `json:"empty_loc,omitempty"`
+	// OddCsig: the caller's unprotected map holds a countersignature parameter in a Go shape other than the
+	// documented pointer forms: 1 Countersignature value under 11, 2 under 7, 3 []Countersignature under 11,
+	// 4 under 7, 5 a nil *Countersignature under 11
+	OddCsig int `json:"odd_csig,omitempty"`
 }
 
 func (c *c12SignCase) payload() cose.HashEnvelopePayload {
@@ -153,6 +157,28 @@ func checkC12Sign(c c12SignCase) error {
 	case 2:
 		h.RawUnprotected = rc.Encode(u, nil)
 		h.Unprotected = cose.UnprotectedHeader{}
+	}
+	if c.OddCsig != 0 && c.RawUnprot != 2 {
+		cs := cose.Countersignature{Headers: cose.Headers{Protected: cose.ProtectedHeader{cose.HeaderLabelAlgorithm: cose.AlgorithmEdDSA}, Unprotected: cose.UnprotectedHeader{}}, Signature: []byte{1, 2, 3}}
+		if h.Unprotected == nil {
+			h.Unprotected = cose.UnprotectedHeader{}
+		}
+		delete(h.Unprotected, int64(7))
+		delete(h.Unprotected, int64(11))
+		h.RawUnprotected = nil
+		switch c.OddCsig {
+		case 1:
+			h.Unprotected[int64(11)] = cs
+		case 2:
+			h.Unprotected[int64(7)] = cs
+		case 3:
+			h.Unprotected[int64(11)] = []cose.Countersignature{cs}
+		case 4:
+			h.Unprotected[int64(7)] = []cose.Countersignature{cs, cs}
+		default:
+			h.Unprotected[int64(11)] = (*cose.Countersignature)(nil)
+		}
+		stats.Class("caller-holds-a-countersignature-in-an-undocumented-go-shape")
 	}
 	before := bridge.Dump(h)
 	pl := c.payload()
@@ -317,6 +343,9 @@ func TestC12_Sign(t *testing.T) {
 		}
 		if rapid.IntRange(0, 7).Draw(rt, "ctyodd") == 0 {
 			c.CtyOdd = rapid.IntRange(1, 4).Draw(rt, "ctyodd-kind")
+		}
+		if rapid.IntRange(0, 9).Draw(rt, "oddcsig") == 0 {
+			c.OddCsig = rapid.IntRange(1, 5).Draw(rt, "oddcsig-kind")
 		}
 		stats.Eval()
 		if len(c.Edits) > 0 || c.Base.CtyKind != 0 || c.Base.Location != "" || c.CtyOdd != 0 {
